@@ -87,14 +87,21 @@ def arg_for12(fname, i, pn, pt, writer):
             v = ENUM_VALID_EXTRA[eb]
         nof = ENUM_NOF.get(eb)
         inv = [("enum--1", "(%s)-1" % t, 1), ("enum-max+1", "(%s)%s" % (t, nof) if nof else "(%s)1000" % t, 1)]
+    if kind == "index":
+        # small indices just beyond the counts of the template files (count+1 exactly, for off-by-one tests): they MAY be valid
+        inv = list(inv) + [("index-2", "2", 0), ("index-3", "3", 0), ("index-4", "4", 0), ("index-5", "5", 0)]
     if kind == "pnts":
         inv = []          # point sets may legitimately lie in rind planes (indices <= 0 or beyond the core range)
+        if fname == "cg_1to1_write" and pn == "range":
+            inv = [("range-beyond", "SZ_BAD_HI", 1)]       # 1-to-1 ranges are checked against the zone's core dimensions
     if kind == "rmin":
         inv = [("range-min>max", "SZ_BAD_HI", 1), ("range-min-negative", "SZ_NEG", 1)]
     if kind == "size" and pn in ("start", "end"):
         inv = [("range-start>end", "5" if pn == "start" else "0", 1)]
     if kind == "size" and pn == "npnts":
         inv = [("npnts-0", "0", 1), ("npnts--1", "-1", 1)]
+        if fname in ("cg_conn_write", "cg_conn_write_short"):
+            inv.append(("npnts-beyond", "1000000", 1))     # more points than the zone has
     if fname.startswith("cgio_"):
         # the low-level layer: handles, names and data types are validated; 0 dimensions are legal (an MT node), and the
         # dimension utilities (cgio_check_dimensions, cgio_copy_dimensions, cgio_compute_data_size) return values, not statuses
@@ -151,8 +158,18 @@ def gen_stubs(d, path):
                 variants.append(("%s:%s=%s" % (cls, pname, kind), argv, must, i, pname, cls))
         if name == "cg_family_write":          # family tree paths: the over-long component after a valid one
             argv = [x[0] for x in vals]
-            argv[2] = '"NewFam/nnnnnnnnnnnnnnnnnnnnnnnnnnnnnnnnn"'
+            argv[2] = '"/Base/NewFam/nnnnnnnnnnnnnnnnnnnnnnnnnnnnnnnnn"'
             variants.append(("name-33-in-path:family_name=name", argv, 1, 2, "family_name", "name-33-in-path"))
+        if name == "cg_bcdataset_write":       # a value of the enumeration that this function does not accept
+            argv = [x[0] for x in vals]
+            argv[2] = "CGNS_ENUMV(BCDataTypeUserDefined)"
+            variants.append(("enum-not-accepted:BCDataType=enum", argv, 1, 2, "BCDataType", "enum-not-accepted"))
+        if name in ("cg_geo_write", "cg_node_geo_write"):     # an empty file name while overwriting an existing node
+            argv = [x[0] for x in vals]
+            gi = [p[0] for p in params].index("geo_name")
+            fi = [p[0] for p in params].index("filename")
+            argv[gi], argv[fi] = '"Geo1"', '""'
+            variants.append(("name-empty:filename=filename", argv, 1, fi, "filename", "name-empty-overwrite"))
         body = ["static int call_%s(int v) {" % name, "  switch (v) {"]
         for k, (desc, argv, must, pos, pname, cls) in enumerate(variants):
             if name in C07.HAND:
@@ -350,7 +367,7 @@ def family(cls):
         return "handle"
     if cls.startswith("index"):
         return "index"
-    if cls == "name-empty":
+    if cls in ("name-empty", "name-empty-overwrite"):
         return "name-empty"
     if cls.startswith("name"):
         return "name-long"
@@ -397,19 +414,25 @@ def finding_key(fn, var, what, state, F, claims, bad_long=frozenset()):
     changed = any("changed" in w or "CHANGED" in w for w in what)
     accepted = any(w.startswith("accepted") for w in what)
     cs = callees_of(fn, F)
-    if fam == "name-empty" and not accepted and "cgi_check_strlen" in cs and (fn, var["param"]) not in bad_long:
+    if var["cls"] == "name-empty" and not accepted and "cgi_check_strlen" in cs and (fn, var["param"]) not in bad_long:
         return "cgi_check_strlen:string:name-empty"      # over-long names are refused cleanly: the validator runs, and lets "" through
     if changed and not accepted and state == "bare" and fam != "name-empty":
         if "cgi_get_zcoorGC" in cs:
             return "cgi_get_zcoorGC:Z:container-created-before-validation"
         if "cgi_get_particle_pcoorPC" in cs:
             return "cgi_get_particle_pcoorPC:P:container-created-before-validation"
+    if fam == "index" and accepted and fn in TOLERANT_COUNTERS:
+        return "%s:B/Z:index" % fn                       # one missing test of the getter's result per function
     return "%s:%s:%s" % (fn, var["param"], fam)
 
 
+# the count functions that report 0 with CG_OK when the getter of their container fails (Validate.known_tolerant [G])
+TOLERANT_COUNTERS = {"cg_ncoords", "cg_nholes", "cg_nconns", "cg_n1to1", "cg_n1to1_global", "cg_nbocos", "cg_particle_ncoords"}
+
+
 # ------------------------------------------------------------------------------------------------ selection of cases
-def select_cases(entries, rng, tier, frac_entries=1.0, all_classes=True, only_valid=False):
-    """-> [(entry index, variant)] : which cases a pass runs"""
+def select_cases(entries, rng, tier, frac_entries=1.0, all_classes=True, only_valid=False, probes=False):
+    """-> [(entry index, variant)] : which cases a pass runs (probes: the may-be-valid small indices as well)"""
     out = []
     for i, e in enumerate(entries):
         if frac_entries < 1.0 and rng.random() > frac_entries:
@@ -419,9 +442,9 @@ def select_cases(entries, rng, tier, frac_entries=1.0, all_classes=True, only_va
             continue
         groups = {}
         for v, var in enumerate(e["variants"]):
-            if v == 0:
+            if v == 0 or (var["must"] == 0 and not probes):
                 continue
-            groups.setdefault((var["pos"], family(var["cls"])), []).append(v)
+            groups.setdefault((var["pos"], family(var["cls"]), var["must"] == 0), []).append(v)
         for g, vs in groups.items():
             if all_classes or len(vs) <= 2:
                 out += [(i, v) for v in vs]
@@ -526,8 +549,9 @@ def run(ck):
         if sorted(L.get(k, [])) != sorted(mirror[k]):
             tie_broken.append({"list": k, "only_coq": sorted(set(L.get(k, [])) - set(mirror[k]))[:10], "only_mirror": sorted(set(mirror[k]) - set(L.get(k, [])))[:10]})
     excused = {"late": set(L.get("known_late", [])) | set(L.get("revalidating_wrappers", [])), "tolerant": set(L.get("known_tolerant", [])),
-               "silent": set(L.get("known_silent", []))}
+               "silent": set(L.get("known_silent", [])), "unclaimed": set(L.get("known_unvalidated", []))}
     new_static = {k: sorted(set(L.get(k, [])) - excused[k]) for k in excused}       # functions that newly fail an obligation
+    new_fns = sorted({x.split(":")[0] for v in new_static.values() for x in v})
     ck.extra["translator"] = dict(info, entry_points=len(d["api"]), in_domain=len(dom), late=len(L.get("late", [])), tolerant=len(L.get("tolerant", [])),
                                   silent=len(L.get("silent", [])), unclean_getters=L.get("unclean_getters", []), newly_failing=new_static,
                                   mirror_disagreement=tie_broken, claims=sum(len(v) for v in claims.values()),
@@ -586,7 +610,7 @@ def run(ck):
     valid_ok, rejected, raw = {}, {}, []
     for (b, st, mode, frac, allc, onlyv) in plan:
         t0 = time.time()
-        cases = select_cases(entries, rng, ck.tier, frac, allc, onlyv)
+        cases = select_cases(entries, rng, ck.tier, frac, allc, onlyv, probes=big and st == "rich12" and b == "adf")
         rs = run_cases(exe, tm[(b, st)], work, b, MODES[mode], cases, "%s_%s_%s" % (b, st, mode))
         cfg = "%s/%s/%s" % (b, st, mode)
         dyn["passes"].append({"config": cfg, "cases": len(rs), "wall_s": round(time.time() - t0, 1)})
@@ -617,7 +641,10 @@ def run(ck):
             if c.get("st") not in (None, "0"):
                 rejected.setdefault((fn, var["pos"] + 1), set()).add(family(var["cls"]))
             w = judge(c, e, MODES[mode], var["must"])
-            if w and var["must"]:
+            if var["must"] == 0:
+                # a probe: it may be a valid index.  Only a sanitizer report counts, or a change although the call was refused
+                w = [x for x in w if x.startswith("sanitizer")] + ([x for x in w if "hanged" in x or "CHANGED" in x] if c.get("st") not in (None, "0") else [])
+            if w and (var["must"] or var["must"] == 0):
                 wit = {"level": "inv", "config": cfg, "backend": b, "state": st, "mode": mode, "entry": c["name"], "variant": c["v"], "desc": var["desc"],
                        "what": w, "observed": {k: c.get(k) for k in ("st", "msg", "view", "tree", "file", "out")}, "stderr": c.get("stderr", [])[:6],
                        "valid_variant_accepted_here": nontrivial,
@@ -690,19 +717,24 @@ def run(ck):
     if any(new_static.values()):
         problems.append({"entry_points_newly_failing_an_obligation": new_static,
                          "where": {n: (ex.why_late(n) if n in new_static["late"] else ex.why_silent(n) if n in new_static["silent"] else ex.why_tolerant(n))
-                                   for n in sum(new_static.values(), [])[:8]}})
+                                   for n in new_fns[:8] if n in ex.F}})
     if gdiv or goutcome != "ok":
         problems.append({"getter_model_vs_implementation": gc})
-    if contradicted:
-        problems.append({"claims_contradicted": contradicted[:10]})
     if problems and not ck.violations:
         # widened search: everything about the functions behind the broken obligation, all classes, all states, both back ends
-        suspects = set(sum(new_static.values(), []))
+        suspects = set(new_fns)
         for br in broken:
             suspects |= set(re.findall(r"\b(cgi?o?_\w+)\b", br.get("message", "")))
-        idxs = [i for i, e in enumerate(entries) if e["fn"] in suspects or (not suspects)]
+        # a getter whose model and implementation disagree, or whose row no longer checks: every entry point that uses it
+        bad_rows = {a_.split()[1] for a_, b_ in gdiv if a_.startswith("g ")}
+        gnames = {d["getters"][int(k)]["getter"] for k in bad_rows if k.isdigit() and int(k) < len(d["getters"])} | set(L.get("bad_getters", [])) | \
+                 (set(L.get("unclean_getters", [])) - {"cgi_get_zcoorGC", "cgi_get_particle_pcoorPC"})
+        if gnames:
+            suspects |= {e["fn"] for e in entries if callees_of(e["fn"], F) & gnames}
+        suspects &= {e["fn"] for e in entries}
+        idxs = [i for i, e in enumerate(entries) if e["fn"] in suspects]
         found = False
-        if idxs and len(idxs) < len(entries):
+        if idxs:
             for b in BACKENDS:
                 for st in STATES:
                     for mode in ("modify", "read"):
@@ -715,7 +747,9 @@ def run(ck):
                                 continue
                             var = e["variants"][c["v"]]
                             w = judge(c, e, MODES[mode], var["must"])
-                            if w and var["must"]:
+                            if var["must"] == 0:
+                                w = [x for x in w if x.startswith("sanitizer")] + ([x for x in w if "hanged" in x or "CHANGED" in x] if c.get("st") not in (None, "0") else [])
+                            if w:
                                 key = finding_key(e["fn"], var, w, st, F, claims)
                                 if ck.finding(key, {"level": "inv", "config": "%s/%s/%s" % (b, st, mode), "backend": b, "state": st, "mode": mode, "entry": c["name"],
                                                     "variant": c["v"], "desc": var["desc"], "what": w, "found_by": "widened search behind a broken obligation"}):
